@@ -332,6 +332,12 @@ class Run:
         return self.pidfiles[PIDFILE.index(pid)] if pid in PIDFILE else pid
 
     # --- one step ---------------------------------------------------------------------------
+    def drop_exceptions(self):
+        """Forget the exception objects (tracebacks, frames and what they reference) of all earlier steps."""
+        for rec in self.recs:
+            if rec.out is not None and len(rec.out) > 3 and rec.out[3] is not None:
+                rec.out = rec.out[:3] + (None,)
+
     def step(self, op):
         r = Rec()
         r.i, r.op, r.skipped, r.extra = len(self.recs), op, False, {}
@@ -410,6 +416,24 @@ class Run:
                     wrong = op["nopid_args"] == "wrong"
                     r.out = call(s.store_object, None, arg, checksum=gen.flip_nibble(true_md5, 3) if wrong else true_md5,
                                  checksum_algorithm="md5", expected_object_size=len(data) + 7 if wrong else max(1, len(data)))
+                elif pid is not None and op.get("drop_exceptions_at") is not None:
+                    # the application kept the exception objects of its earlier (refused) requests - for its error report - and
+                    # lets go of them while THIS call is under way (another thread empties the list, the cyclic collector runs):
+                    # whatever those tracebacks kept alive is finalised now, in the middle of the call
+                    from . import fsi
+                    import gc
+                    fsi.install()
+                    state = {"n": 0}
+
+                    def cb(ev, _k=op["drop_exceptions_at"]):
+                        if state["n"] == _k:
+                            self.drop_exceptions()
+                            gc.collect()
+                        state["n"] += 1
+                    with fsi.active(self.root, cb) as fctx:
+                        fctx.read_boundaries = True
+                        fctx.extra_read_roots = [os.path.realpath(self.src), self.src]
+                        r.out = call(s.store_object, pid, arg, **kwargs)
                 elif pid is not None:
                     r.out = call(s.store_object, pid, arg, **kwargs)
                 else:
